@@ -250,6 +250,14 @@ def register(reg):
         st = MD.current_state(I)
         mode2d = I.eng.choose(2, "mode2D during the simulation?") == 1
         sim = make_sim(I, mode2d)
+        # code running at simulation time may have created (or deleted) module-level names: the live namespace at
+        # the end of a simulation is not restricted to the keys it had when the scene was made
+        drift = I.eng.choose(3, "namespace during the simulation: same names / a global was created / a global was deleted")
+        if drift == 1:
+            sim.ns.set("created_while_simulating", 7)
+        elif drift == 2:
+            sim.ns.pop("x")
+        I.eng.input_syms.append(("namespace_drift", C.Const(None), ["same names", "a global was created while simulating", "a global was deleted while simulating"][drift]))
         env.vars["sim"] = sim
         for nm in st.names:
             if nm in sim_written and nm not in RESTORED_BY and nm not in TWO_D and nm != "mode2D":
@@ -272,7 +280,7 @@ def register(reg):
             closure_env=state_env,
             setup=setup_end,
             post=post_end,
-            replay=replay_simulate_then_compile,
+            replay=replay_end_simulation,
             properties=("C14",),
         )
     )
@@ -716,6 +724,34 @@ def replay_running_scenarios(inputs, clause):
             return f"at step {k} veneer.runningScenarios lists a stopped scenario: {lst}"
     if veneer.runningScenarios:
         return f"veneer.runningScenarios = {veneer.runningScenarios} after the simulation"
+    return None
+
+
+def replay_end_simulation(inputs, clause):
+    """Namespace clauses: a real program whose behavior creates / deletes a module-level name while the simulation
+    runs; the module namespaces of the compiled scenario must read the same before and after the simulation."""
+    if "namespace" not in clause:
+        return replay_simulate_then_compile(inputs, clause)
+    import scenic
+    from scenic.core.simulators import DummySimulator
+
+    progs = {
+        "creates": "behavior Tally():\n    global visits\n    visits = 1\n    while True:\n        wait\nego = new Object with behavior Tally\n",
+        "deletes": "helper = 5\nbehavior Drop():\n    global helper\n    del helper\n    while True:\n        wait\nego = new Object with behavior Drop\n",
+        "rebinds": "speed = Range(1, 2)\nbehavior B():\n    global speed\n    speed = 'changed'\n    while True:\n        wait\nego = new Object with behavior B\n",
+    }
+    for what, src in progs.items():
+        sc = scenic.scenarioFromString(src, mode2D=True)
+        before = {mod: dict(ns) for mod, ns in sc.behaviorNamespaces.items()}
+        scene, _ = sc.generate()
+        DummySimulator().simulate(scene, maxSteps=2)
+        for mod, ns in sc.behaviorNamespaces.items():
+            b, a = before[mod], dict(ns)
+            added = sorted(k for k in a if k not in b)
+            gone = sorted(k for k in b if k not in a)
+            changed = sorted(k for k in a if k in b and a[k] is not b[k])
+            if added or gone or changed:
+                return f"a behavior that {what} a module-level name while the simulation runs: after the simulation the module namespace of the compiled scenario has names added {added}, missing {gone}, rebound {changed} (it must read as before the simulation)"
     return None
 
 
